@@ -265,6 +265,27 @@ def run(db: DB, rep: Report) -> None:
                   "the position variables of time ranks when slip is on, so the stamp reads names that are "
                   "never bound (or stale ones from an earlier Einsum)" % sorted(m))
 
+    # ---- D13: coordinates are subtracted only where they are numbers ---------------------
+    rep.rule("D13", "a relative coordinate (rank - offset) is emitted only for ranks that do not stem "
+             "from a flattening", 1)
+    rc13 = C_.methods.get("__rel_coord")
+    if rc13 is None:
+        raise AnalysisError("Canvas.__rel_coord not found")
+    subs13 = [n for n in walk_no_nested(rc13.node) if isinstance(n, ast.Call) and norm(n.func) == "EBinOp" and
+              len(n.args) == 3 and norm(n.args[1]) == "OSub()"]
+    if not subs13:
+        rep.undecided("D13", db.loc(rc13.node), rc13.short, "the subtraction of the offset was not found")
+    for sb in subs13:
+        atoms = [(paths.inlined_text(a, rc13.node), p_) for t, pol in paths.guards(sb, stop=rc13.node)
+                 for a, p_ in paths.conjuncts(t, pol)]
+        ok = any(".is_flattened(" in t_ and not p_ for t_, p_ in atoms)
+        rep.check("D13", ok, db.loc(sb), rc13.short, "rel-coord:not-flattened",
+                  "rank - offset is built only when the rank is not (a partition of) a flattened rank",
+                  "Canvas.__rel_coord builds %s without having excluded ranks that stem from a flattening "
+                  "(guards: %s): the coordinates of every partition of a flattened rank are tuples, and the "
+                  "emitted stamp subtracts two tuples - the program with the display crashes where the one "
+                  "without it runs" % (norm(sb)[:60], [("" if p_ else "not ") + t_[:40] for t_, p_ in atoms]))
+
     # ---- D12: the dynamic name of a stamped rank exists whenever it is handed out ------
     rep.rule("D12", "Partitioning.get_dyn_rank returns a derived rank name only when that rank exists", 1)
     gd = db.func("teaal.ir.partitioning.Partitioning.get_dyn_rank")
@@ -549,6 +570,8 @@ def mutants(db: DB):
     gr, cv, eq, hf = ("teaal/trans/graphics.py", "teaal/trans/canvas.py", "teaal/trans/equation.py",
                       "teaal/trans/hifiber.py")
     return [
+        M("revert F10 fix (upper partitions of a flattened rank)", "teaal/trans/canvas.py",
+          "            if len(iter_ranks) > 1 or flattened:", "            if len(iter_ranks) > 1:", "D13"),
         M("dynamic rank name handed out whenever the rank has successors", "teaal/ir/partitioning.py",
           "        if RankNode(rank + \"0\") in self.graph.nodes:\n            return rank + \"0\"",
           "        if list(self.graph.successors(RankNode(rank))):\n            return rank + \"0\"", "D12"),
